@@ -34,6 +34,10 @@ def curated():
         SC(N("Imply", N("Any", a(), b(), id="C"), cAny(c(), d(), e(), id="D", default=["e"]), id="R"), AM(1, a(), c(), id="M")),
         SC(cXor(a(), b(), c(), id="X", default=["a"]), N("Imply", a(), N("Any", d(), e(), id="Q"), id="R")),
         SC(cAny(a(), b(), id="A", default=["a"]), AM(3, d(), e(), f(), id="M")),
+        # compound alternatives, also referenced by another rule (shared sub-proposition)
+        SC(cAny(V("std"), N("All", x(), V("w"), id="sport"), id="seat", default=["std"]), N("Any", N("All", x(), V("w"), id="sport"), N("All", V("p"), V("q"), id="comfort"), id="pack")),
+        SC(cXor(a(), N("Any", b(), c(), id="G"), id="X", default=["a"])),
+        SC(cAny(a(), N("All", b(), c(), id="G"), d(), id="A", default=["a"]), N("Imply", e(), N("All", b(), c(), id="G"), id="R")),
     ]
     return L
 
@@ -93,6 +97,8 @@ def defaulted(spec, acc=None):
     if spec["t"] in ("cAny", "cXor") and spec.get("default"):
         d = spec["default"][0]
         ch_ids = [c["id"] for c in spec["ch"]]
+        if any(i is None for i in ch_ids):
+            raise ValueError("alternatives of a defaulted Any/Xor need explicit ids in the CFG family")
         comp = [i for i in ch_ids if i != d]
         if len(ch_ids) > 1 and d in ch_ids and comp:
             acc.append((spec, d, comp))
